@@ -19,6 +19,9 @@ package lmd
 // Event `restart`: the core behind the backend restarts while the backend keeps
 // its mode: all addresses serve a status row with another program_start and/or
 // nagios_pid, with the same objects or with another object set (one more host).
+// Event `ready` (on=false): all addresses answer the status query with zero rows
+// from now on (an lmd partner whose own backends are not ready; every other table
+// is answered as before); on=true: the status row is back.
 
 import (
 	"context"
@@ -32,7 +35,7 @@ import (
 )
 
 type c13Event struct {
-	Kind   string `json:"kind"` // init setmode tick pass query restart
+	Kind   string `json:"kind"` // init setmode tick pass query restart ready
 	Addr   int    `json:"addr,omitempty"`
 	Mode   string `json:"mode,omitempty"`
 	Minute bool   `json:"minute,omitempty"`
@@ -40,6 +43,8 @@ type c13Event struct {
 	// restart: the object set changes as well / what changes in the status row (ps, pid, both)
 	Changed bool   `json:"changed,omitempty"`
 	How     string `json:"how,omitempty"`
+	// ready: the status query is answered with its row (true) / with zero rows (false)
+	On bool `json:"on,omitempty"`
 }
 
 type c13Input struct {
@@ -74,11 +79,14 @@ type c13Core struct {
 	dset         int // identity of its object set (the first instance that served it)
 }
 
-func c13Dataset(core *c13Core) map[string]*vTable {
+func c13Dataset(core *c13Core, ready bool) map[string]*vTable {
 	ds := vDefaultDataset(newVRand(4242), core.hosts, 3)
 	st := ds["status"]
 	st.Rows[0][st.colIndex("program_start")] = float64(core.programStart)
 	st.Rows[0][st.colIndex("nagios_pid")] = float64(core.pid)
+	if !ready {
+		st.Rows = [][]interface{}{}
+	}
 
 	return ds
 }
@@ -201,6 +209,7 @@ func c13RunCase(idx int, in *c13Input) (obs []c13Obs, notes []string) {
 
 	// instance 1 of the core; cores[k-1] is instance k
 	cores := []c13Core{{programStart: 1700000000 - 1000, pid: 4321, hosts: 2, dset: 1}}
+	ready := true
 	nAddr := in.NSrc + in.NFb
 	backends := make([]*vBackend, nAddr)
 	addrs := make([]string, nAddr)
@@ -210,7 +219,7 @@ func c13RunCase(idx int, in *c13Input) (obs []c13Obs, notes []string) {
 			addrs[i] = vDeadSocket(fmt.Sprintf("c13-%d-%d", idx, i))
 		} else {
 			backends[i] = newVBackend(fmt.Sprintf("c13-%d-%d", idx, i))
-			backends[i].SetDataset(c13Dataset(&cores[0]))
+			backends[i].SetDataset(c13Dataset(&cores[0], ready))
 			backends[i].SetMode(c13Mode(in.Modes[i]))
 			addrs[i] = backends[i].Addr()
 		}
@@ -269,7 +278,15 @@ func c13RunCase(idx int, in *c13Input) (obs []c13Obs, notes []string) {
 			cores = append(cores, next)
 			for _, b := range backends {
 				if b != nil {
-					b.SetDataset(c13Dataset(&next))
+					b.SetDataset(c13Dataset(&next, ready))
+				}
+			}
+			before = nil // nothing was written by lmd
+		case "ready":
+			ready = ev.On
+			for _, b := range backends {
+				if b != nil {
+					b.SetDataset(c13Dataset(&cores[len(cores)-1], ready))
 				}
 			}
 			before = nil // nothing was written by lmd
@@ -389,6 +406,8 @@ func c13Coq(idx int, in *c13Input, obs []c13Obs, fixed bool) string {
 			events = append(events, fmt.Sprintf("EPass %d", ev.D*1000+int(c13PassFraction*1000)))
 		case "restart":
 			events = append(events, "ERestart "+coqBool(ev.Changed))
+		case "ready":
+			events = append(events, "EReady "+coqBool(ev.On))
 		default:
 			events = append(events, "EQuery")
 		}
@@ -440,8 +459,27 @@ func c13Gen(r *vRand) *c13Input {
 		}
 	}
 	n := 6 + r.intn(16)
+	ready := true
 	for range n {
 		switch k := r.intn(100); {
+		case k >= 96:
+			// the partner stops / starts answering the status query with a row
+			ready = !ready
+			if !ready && r.chance(1, 3) {
+				// ... right when its core has been restarted
+				in.Events = append(in.Events, c13Event{Kind: "restart", Changed: r.chance(1, 2), How: vPick(r, []string{"ps", "pid", "both"})})
+			}
+			in.Events = append(in.Events, c13Event{Kind: "ready", On: ready})
+			if r.chance(2, 3) {
+				pass(in.Update)
+				in.Events = append(in.Events, c13Event{Kind: "tick", Minute: r.chance(1, 8)})
+			}
+			if !ready && r.chance(1, 2) {
+				ready = true
+				in.Events = append(in.Events, c13Event{Kind: "ready", On: true})
+				pass(in.Update)
+				in.Events = append(in.Events, c13Event{Kind: "tick"})
+			}
 		case k < 9:
 			// the core behind the backend restarts (whatever the backend answers at the moment) ...
 			in.Events = append(in.Events, c13Event{Kind: "restart", Changed: r.chance(1, 2), How: vPick(r, []string{"ps", "pid", "both"})})
@@ -484,7 +522,8 @@ func c13ProbeFixed() bool {
 func c13Main(args []string) int {
 	flags := verifParseStreamFlags("c13avail", args)
 	meta := newVMeta("avail", "generated event sequences (6..26 events: set the mode ok/refuse/garbage of one address, the core behind the backend restarts "+
-		"(program_start / nagios_pid / both change in the status row of all addresses, same objects or one more host), one periodicUpdate with/without a "+
+		"(program_start / nagios_pid / both change in the status row of all addresses, same objects or one more host), the partner stops / starts "+
+		"answering the status query with a row (zero rows = peered partner not ready), one periodicUpdate with/without a "+
 		"wall clock minute change, d seconds pass (<= 10 per sequence, d from a list that contains every configured interval and interval-1), client data query) "+
 		"on one peer with 1..3 source and 0..2 fallback addresses (scripted backends or dead sockets); StaleBackendTimeout in {10,30}, IdleTimeout in {20,120}, "+
 		"UpdateInterval in {3,7}, IdleInterval in {40,1800}; BackendKeepAlive off. non-trivial: at least one failure and one recovery observed; distinct by input")
@@ -542,6 +581,9 @@ func c13Main(args []string) int {
 			}
 			if o.bygroup {
 				meta.count("bygroup=refused")
+			}
+			if oi > 0 && o.status == "Down" && prev.status != "Down" && in.Events[oi].Kind == "tick" {
+				meta.count("tick ended down, entered from " + prev.status)
 			}
 			prev = o
 			meta.count("status=" + o.status)
